@@ -177,6 +177,21 @@ func genStdSession(rs uint64, prop string, o stdOpts) *Session {
 			}
 		}
 		sc.Ops = append(sc.Ops, op)
+		if op.Kind == "callbacks" && o.Timeouts && r.IntN(2) == 0 {
+			// the caller keeps its callback objects and runs the same dialogue again with a
+			// shorter per-operation timeout
+			for ci := range sc.Ops[len(sc.Ops)-1].Callbacks {
+				sc.Ops[len(sc.Ops)-1].Callbacks[ci].Once = false
+			}
+			again := sc.Ops[len(sc.Ops)-1]
+			again.Callbacks = append([]CallbackSpec(nil), again.Callbacks...)
+			again.ReuseCb = true
+			again.TimeoutUS = sc.TimeoutOpsUS / 4
+			if sc.Ops[len(sc.Ops)-1].TimeoutUS == again.TimeoutUS {
+				sc.Ops[len(sc.Ops)-1].TimeoutUS = 0
+			}
+			sc.Ops = append(sc.Ops, again)
+		}
 	}
 	if o.AllowZero && r.IntN(8) == 0 {
 		// one plain send with "zero = maximum": the device is made to catch up well after 3x the
